@@ -186,3 +186,36 @@ func Verif_C02_chain3() {
 	verifapi.Assert("payload-intact", verifapi.SameBytes(g.Data, payload))
 	verifapi.Assert("two-hops-consumed", g.HopsToLive == hops-2)
 }
+
+// verifName12 is an arbitrary node name of one or two non-NUL bytes.
+func verifName12() string {
+	s := verifapi.String(1 + verifapi.Choose(2))
+	for i := 0; i < len(s); i++ {
+		verifapi.Assume(s[i] != 0)
+	}
+	return s
+}
+
+// Verif_C02_codec_two_flows: one node encodes two datagrams of two DIFFERENT flows one after the other
+// (node names of one or two arbitrary bytes each, so that e.g. a->bc and ab->c are among them, as on a
+// forwarding hop that carries both): each wire message decodes to exactly its own addresses and payload
+// - no state kept from the first encoding leaks into the second.
+func Verif_C02_codec_two_flows() {
+	n := verifNetceptor("A")
+	s := n.s
+	m1 := &MessageData{FromNode: verifName12(), ToNode: verifName12(), FromService: "s1", ToService: "t1", HopsToLive: 3, Data: verifapi.BytesUpTo(1)}
+	m2 := &MessageData{FromNode: verifName12(), ToNode: verifName12(), FromService: "s2", ToService: "t2", HopsToLive: 4, Data: verifapi.BytesUpTo(1)}
+	w1, err1 := s.translateDataFromMessage(m1)
+	w2, err2 := s.translateDataFromMessage(m2)
+	verifapi.Assert("both-encode", verifapi.All(err1 == nil, err2 == nil))
+	b1, e1 := s.translateDataToMessage(w1)
+	b2, e2 := s.translateDataToMessage(w2)
+	verifapi.Assert("both-decode", verifapi.All(e1 == nil, e2 == nil))
+	verifapi.Cover("two-flows")
+	verifapi.Assert("first-flow-intact", verifSameMsg(m1, b1))
+	verifapi.Assert("second-flow-intact", verifSameMsg(m2, b2))
+	// and again in the other order on the same node
+	w2b, _ := s.translateDataFromMessage(m2)
+	b2b, e3 := s.translateDataToMessage(w2b)
+	verifapi.Assert("re-encoding-intact", e3 == nil && verifSameMsg(m2, b2b))
+}
